@@ -196,13 +196,14 @@ func (scanner *memSortingScanner[T]) Scan(store *ObjectStore[T], query ast.Query
 
 	cursor := store.iteratorF()
 
-	rowCursor := &ObjectCursor[T]{
-		store:   store,
-		current: cursor.Current(),
-	}
-
 	if cursor == nil {
 		return nil, 0, nil
+	}
+
+	// the current element is only asked for while the iterator is valid (in the loop below): an iterator over an
+	// empty collection has none
+	rowCursor := &ObjectCursor[T]{
+		store: store,
 	}
 
 	// Longer term, if we're looking for better performance, we could make a version of llrb which takes a comparator
